@@ -16,7 +16,7 @@ open Primaite Primaite.Obs
     rawcfg <thr> <RawObs>   build the object from what the SCENARIO says (Model/ObsConfig: schema defaults, push-down, padding)
                             → ok | rejected (construction raises)
     show                    → the current object in the token grammar of `cfg`
-    flatdim                 → `<flatDim space> <number of Discrete leaves>`
+    flatdim                 → `<flatDim space> <number of Discrete leaves>`, or `raised` (a Dict without sub-spaces cannot be flattened)
     flat <State tokens>     → `<length of flatten(space, observe(state))> <number of ones>` (or `raised`); does not advance
 -/
 
@@ -410,7 +410,8 @@ def step (s : St) : List String → St × String
       | none => ({ s with o := .null }, "rejected")
     | none => (s, "bad-op")
   | ["show"] => (s, " ".intercalate (tObs s.o))
-  | ["flatdim"] => (s, toString (flatDim s.o.space) ++ " " ++ toString (leafCount s.o.space))
+  | ["flatdim"] =>
+    (s, if s.o.space.flattenable then toString (flatDim s.o.space) ++ " " ++ toString (leafCount s.o.space) else "raised")
   | "flat" :: ws =>
     match run pState ws with
     | some st =>
